@@ -13,6 +13,10 @@ Interface used by the lead's C01/C16/C07/C08 assemblies and by harness/c06.py:
   model_decode_expr(env_term, ty_term, bytes, numeric)      -> Coq text : result (value * nat)
   spec_encode_expr(env_term, ty_term, value_term, numeric)  -> Coq text : option (list Z)
   oer_norm(rt_of, t, v, numeric) -> the value the OER decoder returns for an encoded v
+  coq_type(rt_of, t, numeric), coq_env(mod, numeric) -> like gen_asn1.coq_type/coq_env but explicit
+      tags on CHOICE alternatives and SET members are exported as TTag.  The model takes CHOICE
+      alternatives without TTag as AUTOMATIC-tagged (context [index]); modules that use explicit
+      tags (members carrying a 'tag' entry) MUST be exported with these two functions.
 
 Region predicates (each exclusion is either "not modelled" or a recorded finding):
 
@@ -227,3 +231,42 @@ def _default(rt_of, m, numeric):
     if numeric and rt['k'] == 'ENUMERATED':
         dv = dict(rt['root'] + (rt['ext'] or []))[dv]
     return dv
+
+
+# ---------------------------------------------------------------------------
+# Coq export with tags on CHOICE alternatives (own layer; the shared exporter has none)
+
+def coq_member(rt_of, m, numeric, tagged):
+    if m['opt'] is None:
+        o = C('Mandatory')
+    elif m['opt'] == 'optional':
+        o = C('Optional')
+    else:
+        o = C('Default', G.coq_value(rt_of, m['t'], _default(rt_of, m, numeric)))
+    ty = coq_type(rt_of, m['t'], numeric)
+    if tagged and m.get('tag'):
+        cls, num, mode = m['tag']
+        ty = C('TTag', C('mkTag', C({'': 'Ctx', 'UNIVERSAL': 'Univ', 'APPLICATION': 'Appl', 'PRIVATE': 'Priv'}[cls]),
+                         num, mode == 'EXPLICIT'), ty)
+    return ((m['name'], ty), o)
+
+
+def coq_type(rt_of, t, numeric):
+    k = t['k']
+    if k in ('SEQUENCE', 'SET'):
+        ext = None
+        if t['ext'] is not None:
+            ext = C('Some', [((True, [coq_member(rt_of, m, numeric, False) for m in a['group']]) if 'group' in a
+                              else (False, [coq_member(rt_of, a['member'], numeric, False)])) for a in t['ext']])
+        return C('TSeq', k == 'SET', [coq_member(rt_of, m, numeric, k == 'SET') for m in t['root']], ext)
+    if k in ('SEQUENCE OF', 'SET OF'):
+        return C('TSeqOf', k == 'SET OF', coq_type(rt_of, t['elem'], numeric), G.coq_size(t['size']))
+    if k == 'CHOICE':
+        return C('TChoice', [coq_member(rt_of, m, numeric, True) for m in t['root']],
+                 None if t['ext'] is None else C('Some', [coq_member(rt_of, m, numeric, True) for m in t['ext']]))
+    return G.coq_type(rt_of, t, numeric)
+
+
+def coq_env(mod, numeric):
+    rt_of = G.make_resolver(mod)
+    return [(n, coq_type(rt_of, t, numeric)) for n, t in mod['types']]
